@@ -31,7 +31,7 @@ LEVEL_NOTE = ('Trusted: Lean kernel; axioms propext, Classical.choice, Quot.soun
 
 WORK = os.path.join(os.path.dirname(os.path.dirname(os.path.dirname(os.path.abspath(__file__)))), 'work')
 PATHS = ['usr/bin/foo', 'usr/share/doc/a b/c', 'etc/x.conf', 'usr/lib/libé.so', 'a', 'usr/bin/foo', 'opt/with  two', 'FILE', 'x/LOCATION y', 'tab\tin',
-         'usr/share/notes/copied\u2028from web.txt', 'ff\x0cin path', 'nel\x85x', 'vt\x0bx', 'fs\x1cx', 'nb\xa0sp y', 'ideo\u3000graphic']
+         './usr/bin/x', '.disk/info', '..data/link', '/etc/absolute path', '.', './', '/', 'usr/./x/', 'usr/share/notes/copied\u2028from web.txt', 'ff\x0cin path', 'nel\x85x', 'vt\x0bx', 'fs\x1cx', 'nb\xa0sp y', 'ideo\u3000graphic']
 PKGS = ['foo', 'libc6', 'python3-x', 'g++', 'x.y']
 QUALS = [[], [], ['utils'], ['net'], ['main', 'net'], ['non-free', 'x11']]
 
@@ -47,7 +47,7 @@ def render(narr, header, rows):
 
 def case(rng):
     rows = []
-    for _ in range(rng.choice((0, 1, 2, 3, 5, 8, 15, 40))):
+    for _ in range(rng.choice((0, 1, 2, 3, 5, 8, 15, 40, 40, 120, 400))):
         pkgs = [[list(rng.choice(QUALS)), rng.choice(PKGS)] for _ in range(rng.choice((1, 1, 2, 3, 5)))]
         rows.append([rng.choice(PATHS), pkgs, ' ' * rng.choice((1, 1, 2, 8, 40))])
     r = rng.random()
@@ -58,7 +58,7 @@ def case(rng):
         header = rng.choice(('FILE  LOCATION', 'FILE LOCATION', 'FILE' + ' ' * 50 + 'LOCATION', '  FILE   LOCATION  '))
         if has_header and rng.random() < 0.7:
             narr = [rng.choice(('This file maps each file available in the Debian system to', 'the package from which it originates.', '', 'a b', 'FILE', 'x  y,z'))
-                    for _ in range(rng.choice((1, 2, 4)))]
+                    for _ in range(rng.choice((1, 2, 4, 4, 30, 99, 100, 101, 150, 300)))]
     return [narr, header, rows, has_header, render(narr, header, rows)]
 
 
